@@ -25,6 +25,8 @@ DocumentedGirth(sub, rate, short, bs) ==
   ELSE IF sub = "ccsds" /\ rate = "1/2" /\ bs = "1024" THEN "Code girth = 6" ELSE ""
 
 \* a failure is a non-zero exit status with a message, not a panic and not a hang
+\* ber: the requested Eb/N0 values are min, min + step, ..., not beyond max (src/cli/ber.rs: floor((max - min) / step) + 1 points)
+EbN0Points(minC, maxC, stepC) == IF maxC < minC THEN 0 ELSE ((maxC - minC) \div stepC) + 1
 CleanFailure(ev) == ev.status # 0 /\ ~ev.panicked /\ ~ev.timed_out /\ ev.stderr_len > 0
 Success(ev) == ev.status = 0 /\ ~ev.panicked /\ ~ev.timed_out
 =============================================================================
